@@ -110,6 +110,79 @@ def def_chain(fn, e, depth=4):
                     todo.append((i, d + 1))
 
 
+_SCALAR = re.compile(r"^(const )?(unsigned |signed |long |short )*(int|long|short|char|bool|double|float|size_t|std::size_t|unsigned|unsigned int|unsigned short|unsigned long|std::string::size_type|auto)( const)?$")
+
+
+def _value_like(t):
+    """types whose variables cannot change behind the analysis' back: const-qualified objects and plain scalars"""
+    t = t.strip()
+    if t.endswith("&") or t.endswith("*"):
+        return t.startswith("const ") and t.endswith("&")
+    return t.startswith("const ") or bool(_SCALAR.match(t))
+
+
+def stable_locals(fn):
+    """did -> initialiser of the local variables of fn that are initialised at their declaration and never written again
+    (no assignment, compound assignment, ++/--): their name is an abbreviation of the initialiser."""
+    cache = fn.get("_stable_locals")
+    if cache is not None:
+        return cache
+    inits, written = {}, set()
+    body = fn.get("body") or {}
+    for n in walk(body):
+        k = n.get("k")
+        if k == "Var" and isinstance(n.get("init"), dict) and n.get("did") is not None:
+            if n["did"] in inits:
+                written.add(n["did"])
+            inits[n["did"]] = n["init"]
+        tgt = None
+        if k in ("BinaryOperator", "CompoundAssignOperator") and n.get("op", "").endswith("=") and n.get("op") not in ("==", "!=", "<=", ">="):
+            tgt = strip(n["c"][0])
+        elif k == "CXXOperatorCallExpr" and n.get("op", "").endswith("=") and n.get("op") not in ("==", "!=", "<=", ">=") and len(n.get("c", [])) >= 2:
+            tgt = strip(n["c"][1])
+        elif k == "UnaryOperator" and n.get("op", "").replace("post", "").replace("pre", "") in ("++", "--"):
+            tgt = strip(n["c"][0])
+        if tgt is not None and tgt.get("k") == "DeclRefExpr" and isinstance(tgt.get("ref"), dict):
+            written.add(tgt["ref"].get("did"))
+        if k == "CXXForRangeStmt" and isinstance(n.get("var"), dict):
+            written.add(n["var"].get("did"))
+        if k == "Var" and n.get("did") is not None and not _value_like(n.get("t", "")):
+            written.add(n["did"])
+        if k in ("ForStmt",) and isinstance(n.get("init"), dict):
+            for d in n["init"].get("decls", []) if n["init"].get("k") == "DeclStmt" else []:
+                if isinstance(d, dict):
+                    written.add(d.get("did"))
+    out = {d: i for d, i in inits.items() if d not in written}
+    fn["_stable_locals"] = out
+    return out
+
+
+def expand(fn, e, depth=5):
+    """copy of e in which every stable local (see stable_locals) is replaced by its initialiser, recursively"""
+    import copy as _copy
+    st = stable_locals(fn)
+
+    def rec(n, d):
+        if n.get("k") == "DeclRefExpr" and isinstance(n.get("ref"), dict) and n["ref"].get("dk") == "Var" and n["ref"].get("did") in st and d < depth:
+            init = strip(st[n["ref"]["did"]])
+            if init.get("k") != "LambdaExpr":
+                r = rec(_copy.deepcopy(init), d + 1)
+                if strip(r).get("k") in ("DeclRefExpr", "MemberExpr", "IntegerLiteral", "FloatingLiteral", "CXXMemberCallExpr", "StringLiteral"):
+                    return r
+                return {"k": "ParenExpr", "t": n.get("t"), "l": n.get("l"), "c": [r]}
+        for key in _SUBKEYS:
+            if isinstance(n.get(key), dict):
+                n[key] = rec(n[key], d)
+        if isinstance(n.get("c"), list):
+            n["c"] = [rec(x, d) if isinstance(x, dict) else x for x in n["c"]]
+        return n
+    return rec(_copy.deepcopy(e), 0)
+
+
+def expand_text(fn, e, depth=5):
+    return render(expand(fn, e, depth)).replace(" ", "")
+
+
 def is_call(n):
     return n.get("k") in ("CallExpr", "CXXMemberCallExpr", "CXXOperatorCallExpr", "CXXConstructExpr",
                           "CXXTemporaryObjectExpr")
